@@ -297,6 +297,15 @@ def tildeText (env : Env) (name : List Char) (slash : Bool) : List Char :=
 def posixTilde (env : Env) (name : List Char) (slash : Bool) : List AttrChar :=
   if tildeText env name slash = [] then [emptyPathnameMark] else (tildeText env name slash).map protectedChar
 
+/-- XCU 2.6.4: the expression text (already expanded) is evaluated — by the arithmetic of C03's model over this area's
+    variables (`arithI`; what the value is, is C03's subject) —, assignments made by the expression stay in the environment,
+    and the value in decimal is the result of the expansion: ONE field of characters that are results of an expansion
+    (hence subject to field splitting where the context splits) -/
+def posixArith (env : Env) (src : List Char) : SRes :=
+  match Arith.evalStrG arithI false src env with
+  | .ok (v, env') => (env', .ok [toField (intChars v)])
+  | .error e => (env, .error (errOfArith e))
+
 /-- the vacancy reported in error messages -/
 def vacancyOf (v : Option Value) : Vacancy := (Vacancy.of v).getD .unset
 
@@ -305,6 +314,11 @@ mutual
     | .lit c => (env, .ok [[{ value := c, origin := .literal, isQuoted := false, isQuoting := false }]])
     | .bs c => (env, .ok [[quoteChar '\\', quotedLit c]])
     | .param p m => posixParam env willSplit p (resolve env p) m
+    | .arith t =>
+      -- the content is expanded like the content of a here-document: one string, no field splitting
+      match (if t.isNil then (env, .ok [[]]) else posixTextGo env true [] t) with
+      | (env', .error e) => (env', .error e)
+      | (env', .ok fs) => posixArith env' (removeQuotesAndStrip (joinBySep env' fs))
 
   def posixParam (env : Env) (willSplit : Bool) (p : Param) (v : Option Value) : Modifier → SRes
     | .none =>
@@ -425,6 +439,7 @@ def TextUnit.plain : TextUnit → Option Char
   | .lit c => some c
   | .bs c => some c
   | .param _ _ => none
+  | .arith _ => none
 
 def Text.plain : Text → Option (List Char)
   | .nil => some []
